@@ -526,7 +526,7 @@ let run_case (x : sx) : unit =
               List.iter (fun sw ->
                   let sws = { sw_coalesce = sw land 1 <> 0; sw_shake = sw land 2 <> 0;
                               sw_rewrite = sw land 4 <> 0; sw_matrix = sw land 8 <> 0 } in
-                  if (not r.r_optimised) && (c01_scope_all o rust_ord sws r.r_det || c01_scope_quant_all_noq o rust_ord sws r.r_det) then Buffer.add_string tb (Printf.sprintf " %d" sw)) sws;
+                  if (not r.r_optimised) && c01_scope_wide o rust_ord sws r.r_det then Buffer.add_string tb (Printf.sprintf " %d" sw)) sws;
               known_extra := Printf.sprintf " (k%s) (th%s)" (Buffer.contents kb) (Buffer.contents tb)
             end;
             if dec_bool f_validate then begin
